@@ -414,6 +414,10 @@ func ruleF9(c *Ctx) {
 			pos := p.Position(se.Pos())
 			par := p.Parent(se)
 			root := f.Root().Name
+			if root == "fun.(*WorkerGroupConf).CanContinueOnError" || root == "fun.WorkerGroupConf.CanContinueOnError" {
+				R.OK("F9", at, pos, "used by the classification itself")
+				return true
+			}
 			switch t := par.(type) {
 			case *ast.AssignStmt:
 				for _, l := range t.Lhs {
@@ -639,17 +643,20 @@ func ruleX9(c *Ctx) {
 			if !isRet || len(rs.Results) != 1 {
 				return true
 			}
-			call, isCall := ast.Unparen(rs.Results[0]).(*ast.CallExpr)
-			if !isCall || callName(info, call) != stdfn || len(call.Args) != 2 {
-				return true
-			}
-			se, isSel := ast.Unparen(call.Args[0]).(*ast.SelectorExpr)
-			id2, isId := ast.Unparen(call.Args[1]).(*ast.Ident)
-			if isSel && isId && se.Sel.Name == "err" {
-				if rid, ok2 := ast.Unparen(se.X).(*ast.Ident); ok2 && info.Uses[rid] == recv && info.Uses[id2] == arg {
-					ok = true
+			ast.Inspect(resolveLocal(f, rs.Results[0]), func(y ast.Node) bool {
+				call, isCall := y.(*ast.CallExpr)
+				if !isCall || callName(info, call) != stdfn || len(call.Args) != 2 {
+					return true
 				}
-			}
+				se, isSel := ast.Unparen(resolveLocal(f, call.Args[0])).(*ast.SelectorExpr)
+				id2, isId := ast.Unparen(call.Args[1]).(*ast.Ident)
+				if isSel && isId && se.Sel.Name == "err" {
+					if rid, ok2 := ast.Unparen(se.X).(*ast.Ident); ok2 && info.Uses[rid] == recv && info.Uses[id2] == arg {
+						ok = true
+					}
+				}
+				return true
+			})
 			return true
 		})
 		R.Check(ok, "X9", at, p.Position(f.Pos()), "return "+stdfn+"(e.err, arg)", fmt.Sprintf("Stack.%s does not return %s(e.err, <argument>): errors.%s on an aggregate no longer succeeds for a constituent that is itself wrapped (or succeeds for unrelated targets)", name, stdfn, name))
@@ -669,7 +676,7 @@ func ruleX9(c *Ctx) {
 			if isNilIdent(info, rs.Results[0]) {
 				nilRet = true
 			}
-			if se, ok := ast.Unparen(rs.Results[0]).(*ast.SelectorExpr); ok && se.Sel.Name == "next" {
+			if se, ok := ast.Unparen(resolveLocal(f, rs.Results[0])).(*ast.SelectorExpr); ok && se.Sel.Name == "next" {
 				if rid, ok := ast.Unparen(se.X).(*ast.Ident); ok && info.Uses[rid] == recv {
 					next = true
 				}
@@ -686,29 +693,38 @@ func ruleX9(c *Ctx) {
 		recv := recvObject(f)
 		type arm struct{ cond, ret string }
 		var arms []arm
-		ast.Inspect(f.Body, func(x ast.Node) bool {
-			cc, ok := x.(*ast.CaseClause)
-			if !ok {
+		walkNoLit(f.Body, func(x ast.Node) bool {
+			rs, ok := x.(*ast.ReturnStmt)
+			if !ok || len(rs.Results) != 1 {
 				return true
 			}
 			cond := "default"
-			if len(cc.List) > 0 {
-				cond = exprStr(cc.List[0])
+			var child ast.Node = rs
+			for par := p.Parent(rs); par != nil; child, par = par, p.Parent(par) {
+				if cc, ok := par.(*ast.CaseClause); ok {
+					if len(cc.List) > 0 {
+						cond = exprStr(cc.List[0])
+					}
+					break
+				}
+				if ifs, ok := par.(*ast.IfStmt); ok && ast.Node(ifs.Body) == child {
+					cond = exprStr(ifs.Cond)
+					break
+				}
+				if _, ok := par.(*ast.FuncDecl); ok {
+					break
+				}
 			}
 			ret := "?"
-			for _, s := range cc.Body {
-				if rs, ok := s.(*ast.ReturnStmt); ok && len(rs.Results) == 1 {
-					r := ast.Unparen(rs.Results[0])
-					switch {
-					case isNilIdent(info, r):
-						ret = "nil"
-					default:
-						if se, ok := r.(*ast.SelectorExpr); ok && se.Sel.Name == "err" {
-							ret = "err"
-						} else if id, ok := r.(*ast.Ident); ok && info.Uses[id] == recv {
-							ret = "stack"
-						}
-					}
+			r := ast.Unparen(resolveLocal(f, rs.Results[0]))
+			switch {
+			case isNilIdent(info, r):
+				ret = "nil"
+			default:
+				if se, ok := r.(*ast.SelectorExpr); ok && se.Sel.Name == "err" {
+					ret = "err"
+				} else if id, ok := r.(*ast.Ident); ok && info.Uses[id] == recv {
+					ret = "stack"
 				}
 			}
 			arms = append(arms, arm{cond, ret})
